@@ -103,14 +103,19 @@ func c11Check(c timed.Cfg) func(o *obs.Obs) string {
 					return fmt.Sprintf("%s/pace|f(%d) at t=%d and f(%d) at t=%d are less than one tick (%d) apart", tag, i-1, calls[j-1].Time, i, e.Time, f)
 				}
 			}
+			prevI, prevT := -1, int64(0)
 			for _, e := range o.Logs["got"] {
 				i := idx[fmt.Sprint(e.Args[0])]
 				if e.Time < int64(i+1)*f {
 					return fmt.Sprintf("%s/pace|value of index %d received at t=%d, before %d ticks of %d", tag, i, e.Time, i+1, f)
 				}
-				if keepUp && e.Time != int64(i+1)*f {
-					return fmt.Sprintf("%s/keep-up|consumer always ready: value of index %d received at t=%d, want exactly tick %d (t=%d)", tag, i, e.Time, i+1, int64(i+1)*f)
+				// a consumer that keeps up receives one value per tick: consecutive values are exactly as many ticks apart
+				// as their indices (an index that fails under Try uses up its tick); when the first one arrives is bounded
+				// from below only
+				if keepUp && prevI >= 0 && e.Time-prevT != int64(i-prevI)*f {
+					return fmt.Sprintf("%s/keep-up|consumer always ready: index %d received at t=%d and index %d at t=%d, want %d tick(s) of %d between them", tag, prevI, prevT, i, e.Time, i-prevI, f)
 				}
+				prevI, prevT = i, e.Time
 			}
 		}
 		if o.Sim && (cancelled || stopAt >= 0) {
